@@ -190,19 +190,32 @@ def normalize_next_genexp(P):
         if not (isinstance(stmt, ast.Assign) and len(stmt.targets) == 1 and isinstance(stmt.value, ast.Call)):
             return None
         c = stmt.value
-        if not (isinstance(c.func, ast.Name) and c.func.id == "next" and len(c.args) == 1 and not c.keywords and isinstance(c.args[0], ast.GeneratorExp)):
+        if not (isinstance(c.func, ast.Name) and c.func.id == "next" and len(c.args) in (1, 2) and not c.keywords):
             return None
         g = c.args[0]
-        if len(g.generators) != 1 or g.generators[0].is_async or not isinstance(g.generators[0].target, ast.Name):
+        if isinstance(g, ast.Name) and g.id in gen_locals:
+            g = gen_locals[g.id][1]  # `gen = (e for ..); t = next(gen, d)` with `gen` used nowhere else
+            used_locals.add(c.args[0].id)
+        if not isinstance(g, ast.GeneratorExp):
+            return None
+        default = c.args[1] if len(c.args) == 2 else None
+        if len(g.generators) != 1 or g.generators[0].is_async:
             return None
         comp = g.generators[0]
-        if comp.target.id in taken:
-            return None  # the loop variable would leak over a local of the same name
+        tnames = [x.id for x in ast.walk(comp.target) if isinstance(x, ast.Name)]
+        if not tnames or any(x in taken for x in tnames):
+            return None  # the loop variables would leak over locals of the same name
+        if default is None and not isinstance(comp.target, ast.Name):
+            return None  # (the tables read `next((i, v) for i, v in ..)` without a default as a term)
         asg = ast.Assign(targets=copy.deepcopy(stmt.targets), value=copy.deepcopy(g.elt))
         inner = [asg, ast.Break()]
         for cond in reversed(comp.ifs):
             inner = [ast.If(test=copy.deepcopy(cond), body=inner, orelse=[])]
-        loop = ast.For(target=ast.Name(id=comp.target.id, ctx=ast.Store()), iter=copy.deepcopy(comp.iter), body=inner, orelse=[])
+        orelse = [ast.Assign(targets=copy.deepcopy(stmt.targets), value=copy.deepcopy(default))] if default is not None else []
+        loop = ast.For(target=copy.deepcopy(comp.target), iter=copy.deepcopy(comp.iter), body=inner, orelse=orelse)
+        for x in ast.walk(loop.target):
+            if isinstance(x, (ast.Name, ast.Tuple, ast.List)):
+                x.ctx = ast.Store()
         n_sites[0] += 1
         ast.copy_location(loop, stmt)
         for x in ast.walk(loop):
@@ -224,11 +237,24 @@ def normalize_next_genexp(P):
             res.append(new if new is not None else s_)
         return res
 
+    gen_locals = {}
+    used_locals = set()
     for f in list(P.funcs.values()):
         if f.module.is_tools or f.parent is not None:
             continue
         if not any(isinstance(n, ast.GeneratorExp) for n in ast.walk(f.node)):
             continue
+        gen_locals.clear()
+        used_locals.clear()
+        stores, loads = {}, {}
+        for n in ast.walk(f.node):
+            if isinstance(n, ast.Assign) and len(n.targets) == 1 and isinstance(n.targets[0], ast.Name):
+                stores.setdefault(n.targets[0].id, []).append(n)
+            elif isinstance(n, ast.Name) and isinstance(n.ctx, ast.Load):
+                loads[n.id] = loads.get(n.id, 0) + 1
+        for nm, asg in stores.items():
+            if len(asg) == 1 and isinstance(asg[0].value, ast.GeneratorExp) and loads.get(nm, 0) == 1:
+                gen_locals[nm] = (asg[0], asg[0].value)
         taken = set(f.all_params())
         for n in ast.walk(f.node):
             if isinstance(n, ast.Name) and not any(n is x for ge in ast.walk(f.node) if isinstance(ge, ast.GeneratorExp) for x in ast.walk(ge)):
@@ -236,6 +262,13 @@ def normalize_next_genexp(P):
         before = n_sites[0]
         body = rewrite(f.node.body, taken)
         if n_sites[0] != before:
+            if used_locals:
+                drop = {id(gen_locals[nm][0]) for nm in used_locals}
+
+                class D(ast.NodeTransformer):
+                    def visit_Assign(self, n):
+                        return ast.copy_location(ast.Pass(), n) if id(n) in drop else n
+                body = [D().visit(b) for b in body]
             f.node.body = body
     return n_sites[0]
 
